@@ -38,6 +38,18 @@ theorem insertIdx_some (s0 s1 o0 o1 S0 S1 : Int) (orow ocol frow fcol : Int × I
   split_ifs at h <;> simp_all <;>
     (obtain ⟨⟨⟨h1, h2⟩, h3, h4⟩, ⟨h5, h6⟩, h7, h8⟩ := h; subst_vars; simp only; omega)
 
+/-- the two slices of `out[out_slice] += field.data[field_slice]` are non-empty, inside their arrays and of equal shape
+(this is what makes the NumPy statement well-formed; the model `insertArr` reads only the slice starts) -/
+theorem insertIdx_wellformed (s0 s1 o0 o1 S0 S1 : Int) (orow ocol frow fcol : Int × Int)
+    (h : Gen.insertIdx s0 s1 o0 o1 S0 S1 = some ((orow, ocol), (frow, fcol))) :
+    (0 ≤ orow.1 ∧ orow.1 < orow.2 ∧ orow.2 ≤ S0) ∧ (0 ≤ ocol.1 ∧ ocol.1 < ocol.2 ∧ ocol.2 ≤ S1) ∧
+    (0 ≤ frow.1 ∧ frow.2 ≤ s0) ∧ (0 ≤ fcol.1 ∧ fcol.2 ≤ s1) ∧
+    frow.2 - frow.1 = orow.2 - orow.1 ∧ fcol.2 - fcol.1 = ocol.2 - ocol.1 := by
+  unfold Gen.insertIdx at h
+  simp only [] at h
+  split_ifs at h <;> simp_all <;>
+    (obtain ⟨⟨⟨h1, h2⟩, h3, h4⟩, ⟨h5, h6⟩, h7, h8⟩ := h; subst_vars; simp only; omega)
+
 /-! ### sums as folds -/
 
 theorem sumList_congr [Add K] [Zero K] {α} (l : List α) (f g : α → K) (h : ∀ x ∈ l, f x = g x) :
